@@ -48,7 +48,7 @@ def plan(tier: str, seed: int, scale: float = 1.0, max_n_quick=14, max_n_thoroug
             specs.append(("hyp", seed, s, ex, max_n_quick))
         for s in range(16):
             # extra weight on the two structure-building modes: loop nests in nested contexts, composed graphs
-            specs.append(("hypmode", seed, s, max(10, int((300, 120)[s % 2] * scale)), max_n_quick, ("nests", "compose")[s % 2]))
+            specs.append(("hypmode", seed, s, max(10, int((300, 120, 300, 150)[s % 4] * scale)), max_n_quick, ("nests", "compose", "nests", "wide")[s % 4]))
         if corpus:
             for s in range(8):
                 specs.append(("corpus", s, 8, max(10, int(100 * scale))))
@@ -67,7 +67,7 @@ def plan(tier: str, seed: int, scale: float = 1.0, max_n_quick=14, max_n_thoroug
         for s in range(32):
             specs.append(("hyp", seed, s, ex, max_n_thorough))
         for s in range(32):
-            specs.append(("hypmode", seed, s, max(30, int(900 * scale)), max_n_thorough, ("nests", "compose")[s % 2]))
+            specs.append(("hypmode", seed, s, max(30, int(900 * scale)), max_n_thorough, ("nests", "compose", "nests", "wide")[s % 4]))
         if corpus:
             for s in range(16):
                 specs.append(("corpus", s, 16, 10**9))
